@@ -70,12 +70,59 @@ def run_cmd(cmd, cwd=None, timeout=3600, env=None):
 
 
 def regenerate_constants():
+    """returns (ok, message, stale constants).  When a section of the source no longer has the shape the
+    extractor reads, its constants keep the values of the last good extraction (the project still builds) and
+    are listed as stale: a broken obligation for exactly the checks that use one of them"""
     rc, out, _ = run_cmd([sys.executable, os.path.join(HERE, "extract_constants.py")])
     if rc == 3:
-        return False, out.strip()
+        try:
+            with open(os.path.join(LEAN, ".lake", "extract_status.json")) as f:
+                st = json.load(f)
+        except Exception:
+            st = {"stale_constants": None}
+        return False, out.strip(), st.get("stale_constants")
     if rc != 0:
         raise ToolTrouble(f"extract_constants failed: {out}")
-    return True, out.strip()
+    return True, out.strip(), []
+
+
+def module_closure(mods):
+    """the Aldy modules the given modules import, transitively (from the import lines)"""
+    seen, todo = [], list(mods)
+    while todo:
+        m = todo.pop()
+        if m in seen:
+            continue
+        path = os.path.join(LEAN, m.replace(".", "/") + ".lean")
+        if not os.path.exists(path):
+            continue
+        seen.append(m)
+        with open(path) as f:
+            for line in f:
+                mm = re.match(r"^import\s+(Aldy\.[\w.]+)", line)
+                if mm:
+                    todo.append(mm.group(1))
+    return seen
+
+
+def constants_used(mods):
+    """names of regenerated constants that occur in the given modules or anything they import"""
+    names = set()
+    with open(os.path.join(LEAN, "Aldy", "Generated", "Constants.lean")) as f:
+        for line in f:
+            mm = re.match(r"^def\s+([A-Z][A-Z0-9_]*)\b", line)
+            if mm:
+                names.add(mm.group(1))
+    used = set()
+    for m in module_closure(mods):
+        if m == "Aldy.Generated.Constants":
+            continue
+        with open(os.path.join(LEAN, m.replace(".", "/") + ".lean")) as f:
+            text = f.read()
+        for n in names:
+            if re.search(r"\b" + n + r"\b", text):
+                used.add(n)
+    return used
 
 
 def theorem_names(module_rel):
@@ -133,6 +180,8 @@ def grep_forbidden():
 
 
 def lake_build(targets=("Aldy", "driver")):
+    """build the given targets (a check builds its own property modules and the driver: a theorem of another
+    property that no longer holds is that property's obligation, not this one's)"""
     rc, out, dt = run_cmd(["lake", "build", *targets], cwd=LEAN, timeout=3000)
     return rc == 0, out, dt
 
